@@ -77,27 +77,50 @@ Proof.
   apply Z.eqb_eq in H. unfold EINTR in H. f_equal. lia.
 Qed.
 
-Lemma retry_pre_N seqs n pre :
+(* [k] is the kernel contract applied to an answer; it leaves errors alone *)
+Lemma retry_pre_N seqs (k : sans -> sans) pre :
+  (forall e, k (SErr e) = SErr e) ->
   Forall (fun x => is_eintr x = true) pre ->
-  let tr := map (fun a => ESysN seqs (clamp n a)) pre in
+  let tr := map (fun a => ESysN seqs (k a)) pre in
   handed tr = [] /\ errs_of tr = [] /\ forallb is_sys tr = true.
 Proof.
-  induction 1 as [|x pre Hx _ IH]; simpl; auto.
-  apply eintr_inv in Hx; subst x. simpl in *.
+  intros Hk. induction 1 as [|x pre Hx _ IH]; simpl; auto.
+  apply eintr_inv in Hx; subst x. rewrite Hk. simpl in *.
   destruct IH as (H1 & H2 & H3). unfold handed, errs_of in *. simpl.
   rewrite H1, H3. destruct seqs; simpl; auto.
 Qed.
 
-Lemma retry_pre_1 seq pre :
+Lemma retry_pre_1 seq (k : sans -> sans) pre :
+  (forall e, k (SErr e) = SErr e) ->
   Forall (fun x => is_eintr x = true) pre ->
-  let tr := map (ESys1 seq) pre in
+  let tr := map (fun a => ESys1 seq (k a)) pre in
   handed tr = [] /\ errs_of tr = [] /\ forallb is_sys tr = true.
 Proof.
-  induction 1 as [|x pre Hx _ IH]; simpl; auto.
-  apply eintr_inv in Hx; subst x. simpl in *.
+  intros Hk. induction 1 as [|x pre Hx _ IH]; simpl; auto.
+  apply eintr_inv in Hx; subst x. rewrite Hk. simpl in *.
   destruct IH as (H1 & H2 & H3). unfold handed, errs_of in *. simpl.
   now rewrite H1, H3.
 Qed.
+
+Lemma okp_le m : (okp m <= length m)%nat.
+Proof. induction m as [|d m IH]; simpl; [lia|]. destruct (d_nb d <=? IOV_MAX)%N; lia. Qed.
+
+Lemma clamp_le m a r : clamp m a = SRet r -> (r <= N.of_nat (okp m))%N.
+Proof.
+  unfold clamp. destruct a as [r0|e]; [|discriminate].
+  destruct m as [|d m'].
+  - intros H; inversion H. simpl. lia.
+  - destruct (okp (d :: m')) as [|k]; [discriminate|]. intros H; inversion H. lia.
+Qed.
+
+Lemma clamp_not_eintr m a : is_eintr a = false -> is_eintr (clamp m a) = false.
+Proof.
+  unfold clamp. destruct a as [r|e]; auto. intros _.
+  destruct m as [|d m']; [reflexivity|]. destruct (okp (d :: m')); reflexivity.
+Qed.
+
+Lemma clamp1_not_eintr d a : is_eintr a = false -> is_eintr (clamp1 d a) = false.
+Proof. destruct a as [r|e]; simpl; auto. intros _. destruct (d_nb d <=? IOV_MAX)%N; reflexivity. Qed.
 
 (* a hard error: not EINTR, and not mapped to UV_EAGAIN *)
 Lemma map_errno_real p :
@@ -122,15 +145,16 @@ Lemma sendmsg1_spec d o res ev o' :
    (res < 0 /\ handed ev = [] /\
     (res <> UV_EAGAIN -> In (d_seq d, res) (errs_of ev)))).
 Proof.
-  unfold sendmsg1. destruct (send_retry (ESys1 (d_seq d)) o) as [[a ev1] o1] eqn:E.
+  unfold sendmsg1.
+  destruct (send_retry (fun a => ESys1 (d_seq d) (clamp1 d a)) o) as [[a ev1] o1] eqn:E.
   intros H; inversion H; subst; clear H.
   destruct (send_retry_spec _ _ _ _ _ E) as (Ha & Hl & Hl' & pre & Hev & Hpre).
-  destruct (retry_pre_1 (d_seq d) pre Hpre) as (P1 & P2 & P3). subst ev.
-  rewrite forallb_app, handed_app, errs_of_app, P1, P2, P3. simpl.
-  repeat split; auto.
-  destruct a as [r|p]; simpl.
-  - left. auto.
-  - right. split; [apply map_errno_neg|]. split; [reflexivity|].
+  destruct (retry_pre_1 (d_seq d) (clamp1 d) pre (fun e => eq_refl) Hpre) as (P1 & P2 & P3). subst ev.
+  rewrite forallb_app, handed_app, errs_of_app, P1, P2, P3.
+  apply (clamp1_not_eintr d) in Ha.
+  destruct (clamp1 d a) as [r|p]; simpl.
+  - repeat split; auto.
+  - repeat split; auto. right. split; [apply map_errno_neg|]. split; [reflexivity|].
     intros Hne. destruct (map_errno_real p Ha Hne) as (Hr & Hm).
     rewrite Hr, Hm. simpl. auto.
 Qed.
@@ -176,11 +200,11 @@ Proof.
       assert (Hm : exists m', m = d :: m').
       { unfold m. rewrite Hsk, BATCH_eq. simpl. eauto. }
       destruct Hm as (m' & Hm).
-      destruct (send_retry (fun a => ESysN (map d_seq m) (clamp (length m) a)) o)
+      destruct (send_retry (fun a => ESysN (map d_seq m) (clamp m a)) o)
         as [[a0 ev1] o1] eqn:E.
       destruct (send_retry_spec _ _ _ _ _ E) as (Ha & Hl & _ & pre & Hev & Hpre).
-      destruct (retry_pre_N (map d_seq m) (length m) pre Hpre) as (P1 & P2 & P3).
-      destruct (clamp (length m) a0) as [r|p] eqn:Ec.
+      destruct (retry_pre_N (map d_seq m) (clamp m) pre (fun e => eq_refl) Hpre) as (P1 & P2 & P3).
+      destruct (clamp m a0) as [r|p] eqn:Ec.
       * destruct (r <? 1)%N eqn:Er.
         -- inversion H; subst res ev o'. subst ev1.
            rewrite forallb_app, P3. split; [reflexivity|]. split; [lia|]. split.
@@ -196,7 +220,7 @@ Proof.
            split; [reflexivity|]. split; [lia|]. split; [auto|lia].
       * inversion H; subst res ev o'. subst ev1.
         rewrite forallb_app, handed_app, errs_of_app, P1, P2, P3.
-        assert (a0 = SErr p) by (destruct a0; simpl in Ec; congruence). subst a0.
+        apply (clamp_not_eintr m) in Ha. rewrite Ec in *.
         split; [reflexivity|]. split; [lia|]. split.
         -- intros. now rewrite vexit_pos.
         -- intros Hneg Hne.
@@ -210,18 +234,20 @@ Qed.
 
 (* one round of the loop: what the sendmmsg call (with its EINTR retries) handed over *)
 Lemma round_spec m o a0 ev1 o1 :
-  send_retry (fun a => ESysN (map d_seq m) (clamp (length m) a)) o = (a0, ev1, o1) ->
-  match clamp (length m) a0 with
+  send_retry (fun a => ESysN (map d_seq m) (clamp m a)) o = (a0, ev1, o1) ->
+  match clamp m a0 with
   | SErr p => handed ev1 = []
-  | SRet r => (r <= N.of_nat (length m))%N /\ handed ev1 = map d_seq (firstn (N.to_nat r) m)
+  | SRet r => (r <= N.of_nat (length m))%N /\ (r <= N.of_nat (okp m))%N /\
+              handed ev1 = map d_seq (firstn (N.to_nat r) m)
   end.
 Proof.
   intros E.
   destruct (send_retry_spec _ _ _ _ _ E) as (Ha & Hl & _ & pre & Hev & Hpre).
-  destruct (retry_pre_N (map d_seq m) (length m) pre Hpre) as (P1 & P2 & P3).
+  destruct (retry_pre_N (map d_seq m) (clamp m) pre (fun e => eq_refl) Hpre) as (P1 & P2 & P3).
   subst ev1. rewrite handed_app, P1. simpl.
-  destruct a0 as [r|p]; simpl.
-  - split; [lia|]. rewrite app_nil_r. apply firstn_map.
+  destruct (clamp m a0) as [r|p] eqn:Ec; simpl.
+  - pose proof (clamp_le _ _ _ Ec). pose proof (okp_le m). split; [lia|]. split; [lia|].
+    rewrite app_nil_r. apply firstn_map.
   - reflexivity.
 Qed.
 
@@ -254,11 +280,11 @@ Proof.
       set (m := firstn BATCH (skipn i ds)) in *.
       assert (Hml : (length m <= length ds - i)%nat).
       { unfold m. pose proof (batch_len' (skipn i ds)). rewrite skipn_length in H0. lia. }
-      destruct (send_retry (fun a => ESysN (map d_seq m) (clamp (length m) a)) o)
+      destruct (send_retry (fun a => ESysN (map d_seq m) (clamp m a)) o)
         as [[a0 ev1] o1] eqn:E.
       pose proof (round_spec m o a0 ev1 o1 E) as R.
-      destruct (clamp (length m) a0) as [r|p] eqn:Ec.
-      * destruct R as (Rle & Rh).
+      destruct (clamp m a0) as [r|p] eqn:Ec.
+      * destruct R as (Rle & Rok & Rh).
         destruct (r <? 1)%N eqn:Er.
         -- apply N.ltb_lt in Er. assert (r = 0%N) by lia. subst r.
            inversion H; subst res ev o'. exists 0%nat. rewrite Nat.add_0_r.
@@ -297,8 +323,8 @@ Proof.
        let m := firstn BATCH (skipn 0 ds) in
        let n := length m in
        let i1 := (0 + n)%nat in
-       let '(a0, ev, o1) := send_retry (fun a => ESysN (map d_seq m) (clamp n a)) o in
-       match clamp n a0 with
+       let '(a0, ev, o1) := send_retry (fun a => ESysN (map d_seq m) (clamp m a)) o in
+       match clamp m a0 with
        | SErr e => (vexit 0 (SErr e), ev, o1)
        | SRet r =>
            if (r <? 1)%N then (vexit 0 (SRet r), ev, o1)
@@ -311,11 +337,11 @@ Proof.
   - inversion H; subst. exists 0%nat.
     split; [lia|]. split; [reflexivity|]. split; [lia|]. intros _. unfold vexit. simpl. lia.
   - cbv zeta in H. simpl skipn in H. rewrite (firstn_all2 ds) in H by exact Hs.
-    destruct (send_retry (fun a => ESysN (map d_seq ds) (clamp (length ds) a)) o)
+    destruct (send_retry (fun a => ESysN (map d_seq ds) (clamp ds a)) o)
       as [[a0 ev1] o1] eqn:E.
     pose proof (round_spec ds o a0 ev1 o1 E) as R.
-    destruct (clamp (length ds) a0) as [r|p] eqn:Ec.
-    + destruct R as (Rle & Rh).
+    destruct (clamp ds a0) as [r|p] eqn:Ec.
+    + destruct R as (Rle & Rok & Rh).
       destruct (r <? 1)%N eqn:Er.
       * apply N.ltb_lt in Er. assert (r = 0%N) by lia. subst r.
         inversion H; subst res ev o'. exists 0%nat.
@@ -411,7 +437,7 @@ Proof.
   inversion H; subst s' ev. clear H.
   destruct (sendmsgv_basic _ _ _ _ _ _ E) as (Hs & _ & _).
   destruct Hin as [Hin|Hin]; [discriminate Hin|].
-  change (handed (EName (map (fun d => (d_seq d, d_dst d)) (mk_batch (next_seq s) addr lens))
+  change (handed (EName (map (fun d => (d_seq d, d_dst d, d_nb d)) (mk_batch (next_seq s) addr lens))
                     :: ev0 ++ [ETry2 (next_seq s) (length lens) r]))
     with (handed (ev0 ++ [ETry2 (next_seq s) (length lens) r])).
   apply in_app_or in Hin. destruct Hin as [Hin|[Hin|[]]].
@@ -442,7 +468,7 @@ Qed.
 
 (* ... and fails for 50 datagrams all of which the kernel accepts *)
 Definition witness_state : st := init false false [SRet 20; SRet 10] [] [].
-Definition witness_lens : list N := repeat 10%N 50.
+Definition witness_lens : list (N * N) := repeat (10%N, 1%N) 50.
 
 Lemma try_send2_prefix_false : ~ try_send2_prefix false.
 Proof.
@@ -662,9 +688,9 @@ Lemma sbytes_app a b : sbytes (a ++ b) = sbytes a + sbytes b.
 Proof. induction a as [|p a IH]; simpl; [reflexivity|]. rewrite IH. lia. Qed.
 
 (* uv_udp_send queues a request; the monitor sees ESend *)
-Lemma Inv_append s m len addr s' :
+Lemma Inv_append s m len addr nb s' :
   Inv s m ->
-  wq s' = wq s ++ [mkReq (next_id s) (mkD (next_seq s) len addr) 0] -> cq s' = cq s ->
+  wq s' = wq s ++ [mkReq (next_id s) (mkD (next_seq s) len addr nb) 0] -> cq s' = cq s ->
   sq_size s' = sq_size s + Z.of_N len -> sq_count s' = sq_count s + 1 ->
   next_id s' = S (next_id s) -> next_seq s' = (next_seq s + 1)%nat ->
   close_pending s' = close_pending s -> closing s' = closing s ->
@@ -672,7 +698,7 @@ Lemma Inv_append s m len addr s' :
                 (m_hand m) (m_errs m) (m_closed m)).
 Proof.
   intros [] Hw Hc Hsz Hct Hid Hsq Hcp Hcl.
-  assert (Hs : strips s' = strips s ++ [(next_id s, mkD (next_seq s) len addr)]).
+  assert (Hs : strips s' = strips s ++ [(next_id s, mkD (next_seq s) len addr nb)]).
   { unfold strips. rewrite Hw, Hc, app_assoc, map_app. reflexivity. }
   constructor; simpl; rewrite ?Hs, ?Hcp, ?Hcl; auto.
   - rewrite map_app, i_owed0. reflexivity.
@@ -924,7 +950,7 @@ Proof.
     + inversion H; subst. simpl. split; constructor.
     + apply Nat.leb_gt in Ei.
       set (m := firstn BATCH (skipn i ds)) in *.
-      destruct (send_retry (fun a => ESysN (map d_seq m) (clamp (length m) a)) o)
+      destruct (send_retry (fun a => ESysN (map d_seq m) (clamp m a)) o)
         as [[a0 ev1] o1] eqn:E.
       pose proof (round_spec m o a0 ev1 o1 E) as R.
       assert (Hml : (length m <= length ds - i)%nat).
@@ -934,8 +960,8 @@ Proof.
       { intros r Hr. unfold m. rewrite firstn_firstn_le.
         2:{ pose proof (batch_len (skipn i ds)). fold m in H0. lia. }
         rewrite <- firstn_map, <- skipn_map, Hds, skipn_seq', firstn_seq_le; [reflexivity|lia]. }
-      destruct (clamp (length m) a0) as [r|p] eqn:Ec.
-      * destruct R as (Rle & Rh).
+      destruct (clamp m a0) as [r|p] eqn:Ec.
+      * destruct R as (Rle & Rok & Rh).
         assert (Hh1 : handed ev1 = seq (s0 + i) (N.to_nat r)) by (rewrite Rh; apply Hm1; lia).
         assert (Hr1 : StronglySorted lt (handed ev1) /\
                       Forall (fun x => (s0 + i <= x < s0 + i + N.to_nat r)%nat) (handed ev1)).
@@ -1009,7 +1035,7 @@ Proof.
   destruct (_ && _); [right; lia|left; reflexivity].
 Qed.
 
-Lemma udp_send_ok fx s m len addr : Inv s m -> okr m (udp_send fx s len addr).
+Lemma udp_send_ok fx s m len addr nb : Inv s m -> okr m (udp_send fx s len addr nb).
 Proof.
   intros HI. unfold udp_send.
   destruct (check_before_send s addr <? 0) eqn:Ec.
@@ -1018,11 +1044,11 @@ Proof.
     split; [reflexivity|]. eapply Inv_state; [exact HI| | | | | | | |]; simpl; auto; lia.
   - set (s0 := bump_id (bump_seq 1 s)).
     set (s1 := set_active true
-                 (set_queues (wq s0 ++ [mkReq (next_id s) (mkD (next_seq s) len addr) 0]) (cq s0)
+                 (set_queues (wq s0 ++ [mkReq (next_id s) (mkD (next_seq s) len addr nb) 0]) (cq s0)
                              (sq_size s0 + Z.of_N len) (sq_count s0 + 1) s0)).
     set (m1 := mkMon (m_owed m ++ [(next_id s, next_seq s, Z.of_N len)]) (S (next_id s))
                      (m_hand m) (m_errs m) (m_closed m)).
-    assert (H1 : Inv s1 m1) by (apply (Inv_append s m len addr s1 HI); reflexivity).
+    assert (H1 : Inv s1 m1) by (apply (Inv_append s m len addr nb s1 HI); reflexivity).
     assert (St : mon_step m (ESend (next_id s) (next_seq s) (Z.of_N len) 0) = Some m1).
     { simpl. pose proof (i_next _ _ HI) as Hn. apply Nat.leb_le in Hn. now rewrite Hn. }
     destruct ((sq_count s0 =? 0) && negb (processing s1)).
@@ -1047,7 +1073,7 @@ Proof. intros H1 H2. rewrite mon_run_app, H1. simpl. now rewrite H2. Qed.
 Lemma mon_run_cons_name m l ev : mon_run m (EName l :: ev) = mon_run m ev.
 Proof. reflexivity. Qed.
 
-Lemma udp_try_send_ok s m len addr : Inv s m -> okr m (udp_try_send s len addr).
+Lemma udp_try_send_ok s m len addr nb : Inv s m -> okr m (udp_try_send s len addr nb).
 Proof.
   intros HI. unfold udp_try_send.
   assert (H0 : Inv (bump_seq 1 s) m).
@@ -1055,7 +1081,7 @@ Proof.
   destruct (check_before_send s addr <? 0); [exists m; simpl; auto|].
   destruct (negb (sq_count (bump_seq 1 s) =? 0)) eqn:Eq; [exists m; simpl; auto|].
   apply negb_false_iff, Z.eqb_eq in Eq.
-  destruct (sendmsg1 (mkD (next_seq s) len addr) (os (bump_seq 1 s))) as [[r ev] o'] eqn:E.
+  destruct (sendmsg1 (mkD (next_seq s) len addr nb) (os (bump_seq 1 s))) as [[r ev] o'] eqn:E.
   destruct (sendmsg1_spec _ _ _ _ _ E) as (Hsys & _ & _ & Hc).
   assert (Hl : StronglySorted lt (handed ev) /\
                Forall (fun x => (next_seq s <= x < next_seq s + 1)%nat) (handed ev)).
@@ -1940,7 +1966,7 @@ Qed.
 Lemma udp_sendmsg_keeps fx s : keeps s (udp_sendmsg fx s).
 Proof. unfold udp_sendmsg. destruct (wq s); [repeat split|apply sendmsg_loop_keeps]. Qed.
 
-Lemma udp_send_keeps fx s len addr : keeps s (udp_send fx s len addr).
+Lemma udp_send_keeps fx s len addr nb : keeps s (udp_send fx s len addr nb).
 Proof.
   unfold udp_send. destruct (check_before_send s addr <? 0); [repeat split|].
   match goal with |- keeps s (if ?c then _ else _) => destruct c end; [|repeat split].
@@ -1950,7 +1976,7 @@ Proof.
   destruct (wq s2); repeat split; simpl; auto.
 Qed.
 
-Lemma udp_try_send_keeps s len addr : keeps s (udp_try_send s len addr).
+Lemma udp_try_send_keeps s len addr nb : keeps s (udp_try_send s len addr nb).
 Proof.
   unfold udp_try_send. destruct (check_before_send s addr <? 0); [repeat split|].
   destruct (negb _); [repeat split|].
@@ -2325,4 +2351,65 @@ Theorem model_accepted_buffers fx beh rbeh conn mm o r al ops :
 Proof.
   intros Hn. destruct (run_b fx beh rbeh ops (init conn mm o r al) 0 Hn (Nat.le_0_l _)) as (nb & R & _).
   eauto.
+Qed.
+
+(* ------------------------------------------------------------------ *)
+(* Part E.  The kernel's IOV_MAX rule: a datagram made of more than IOV_MAX buffers is never
+   handed to the OS (so by the status theorem its request never reports 0, and try_send /
+   try_send2 never count it). *)
+Lemma okp_firstn : forall m k, (k <= okp m)%nat ->
+  Forall (fun d => (d_nb d <= IOV_MAX)%N) (firstn k m).
+Proof.
+  induction m as [|d m IH]; intros k Hk; simpl in *.
+  - rewrite firstn_nil. constructor.
+  - destruct k; [constructor|]. simpl.
+    destruct (d_nb d <=? IOV_MAX)%N eqn:E; [|lia].
+    constructor; [now apply N.leb_le|]. apply IH. lia.
+Qed.
+
+Definition small_enough (ds : list dgram) (sq : nat) : Prop :=
+  exists d, In d ds /\ d_seq d = sq /\ (d_nb d <= IOV_MAX)%N.
+
+Lemma chunk_loop_iov fx : forall fuel ds i nsent o res ev o',
+  chunk_loop fx fuel ds i nsent o = (res, ev, o') -> Forall (small_enough ds) (handed ev).
+Proof.
+  induction fuel as [|f IH]; intros ds i nsent o res ev o' H; simpl in H.
+  - inversion H; subst. constructor.
+  - destruct (length ds <=? i)%nat; [inversion H; subst; constructor|].
+    set (m := firstn BATCH (skipn i ds)) in *.
+    destruct (send_retry (fun a => ESysN (map d_seq m) (clamp m a)) o) as [[a0 ev1] o1] eqn:E.
+    pose proof (round_spec m o a0 ev1 o1 E) as R.
+    destruct (clamp m a0) as [r|p] eqn:Ec.
+    + destruct R as (Rle & Rok & Rh).
+      assert (H1 : Forall (small_enough ds) (handed ev1)).
+      { rewrite Rh. apply Forall_forall. intros sq Hin. apply in_map_iff in Hin.
+        destruct Hin as (d & Ed & Hd). exists d. split; [|split; auto].
+        - apply in_firstn in Hd. unfold m in Hd. apply in_firstn in Hd. now apply in_skipn in Hd.
+        - pose proof (okp_firstn m (N.to_nat r)) as F. rewrite Forall_forall in F. apply F; auto. lia. }
+      destruct (r <? 1)%N; [inversion H; subst; exact H1|].
+      destruct (chunk_loop fx f ds _ _ o1) as [[res2 ev2] o2] eqn:E2.
+      inversion H; subst. rewrite handed_app. apply Forall_app. split; auto. eapply IH; eauto.
+    + inversion H; subst. rewrite R. constructor.
+Qed.
+
+Lemma sendmsg1_iov d o res ev o' :
+  sendmsg1 d o = (res, ev, o') -> res = 1 -> (d_nb d <= IOV_MAX)%N.
+Proof.
+  unfold sendmsg1.
+  destruct (send_retry (fun a => ESys1 (d_seq d) (clamp1 d a)) o) as [[a ev1] o1].
+  intros H; inversion H; subst; clear H. unfold clamp1.
+  destruct a as [r|p]; [|intros Hm; pose proof (map_errno_neg p); lia].
+  destruct (d_nb d <=? IOV_MAX)%N eqn:E; [intros _; now apply N.leb_le|].
+  intros Hm. pose proof (map_errno_neg EMSGSIZE). lia.
+Qed.
+
+Theorem oversized_not_handed fx ds o res ev o' :
+  sendmsgv fx ds o = (res, ev, o') -> Forall (small_enough ds) (handed ev).
+Proof.
+  unfold sendmsgv. destruct ds as [|d [|d2 l]]; intros H.
+  - inversion H; subst. constructor.
+  - destruct (sendmsg1_spec _ _ _ _ _ H) as (_ & _ & _ & [(R & Hh)|(R & Hh & _)]); rewrite Hh.
+    + repeat constructor. exists d. split; [now left|]. split; auto. eapply sendmsg1_iov; eauto.
+    + constructor.
+  - eapply chunk_loop_iov; eauto.
 Qed.
